@@ -115,6 +115,17 @@ CHECKS["C15"] = dict(
          "at hook points only; per-cell re-seeding (H3) makes division results schedule independent; digests are compared on runs without division.",
     technique="PlusCal/TLA+ specs model-checked by TLC (all interleavings) + TLC trace validation of hooked real parallel phases under seeded schedules")
 
+CHECKS["C03"] = dict(
+    category="model_checking", design_ref="DESIGN.md §C03",
+    text="spec/Integrate states the integration law (semi-implicit Euler and overdamped forward Euler, static cells skipped, the mutually coupled pair "
+         "averaged and processed once by the side with the greater list position, force accumulators zeroed, time advanced by dt) in exact dyadic "
+         "arithmetic; TLC checks StaticFrozen, ForcesZeroed, TimeAdvances, PairSameDisplacement, PairMomentum and FreeNodeLaw on every configuration "
+         "and over consecutive steps. Every explored behaviour (quick: all 12960; thorough: 60000 sampled per build) is replayed into the real "
+         "update_nodes_positions in the builds DYNAMIC 0/1 x CONTACT 1 (plus CONTACT 0 and 2 in the thorough tier) and compared per node and component.",
+    note="Node mass set through the density (exact to 1 ulp), tolerance 1e-9 of the value unit; one scalar per node stands for the 3 components (linear law); "
+         "couplings with static cells / non-mutual couplings are outside the property; contact model 2 only with 2-way couplings.",
+    technique="TLA+ spec (Integrate, exact arithmetic) model-checked by TLC + replay of every TLC behaviour into update_nodes_positions")
+
 PENDING = {}   # property id -> reason (filled below for everything not in CHECKS)
 NOT_APPLICABLE = {
  "C10": "memory safety / undefined behaviour has no representation in a TLA+ state (no addresses, lifetimes or indeterminate values); "
